@@ -1,4 +1,273 @@
 /-
-  C20 — permutation helpers.  Property theorems only (filled in as proofs land).
+  C20 — permutation helpers (`cayleypy/permutation_utils.py`): group laws under the library's action
+  convention `new[i] = old[p[i]]`, `compose(p1,p2) = apply(p1,p2)`.
+  Property theorems only; proofs are in `CvProofs/Perm.lean`.
 -/
-import CvModel.Perm
+import CvProofs.Perm
+import CvProofs.PermConj
+namespace Cv.C20
+open Cv.Perm
+
+theorem isPerm_iff (p : List Nat) : isPerm p = true ↔ IsPermOf p.length p := by
+  exact Cv.Perm.isPerm_iff p
+example : IsPermOf [2,0,3,1].length [2,0,3,1] ∧ ¬ IsPermOf [2,0,2,1].length [2,0,2,1] := by decide
+
+/-- the total version agrees with the partial one in range -/
+theorem apply_eq_apply? (p x : List Nat) (h : ∀ i ∈ p, i < x.length) :
+    apply? p x = some (apply p x) := by
+  exact Cv.Perm.apply_eq_apply? p x h
+example : (∀ i ∈ [2,0,3,1], i < [7,8,9,10].length) ∧ apply? [2,0,3,1] [7,8,9,10] = some [9,7,10,8] := by
+  decide
+
+theorem apply_compose (p q x : List Nat) (hp : ∀ i ∈ p, i < q.length) :
+    apply (compose p q) x = apply p (apply q x) := by
+  exact Cv.Perm.apply_compose p q x hp
+example : (∀ i ∈ [1,2,3,0], i < [1,0,2,3].length) ∧
+    apply (compose [1,2,3,0] [1,0,2,3]) [7,8,9,10] = [7,9,10,8] := by decide
+
+theorem compose_assoc (p q r : List Nat) (hp : ∀ i ∈ p, i < q.length) :
+    compose (compose p q) r = compose p (compose q r) := by
+  exact Cv.Perm.compose_assoc p q r hp
+example : (∀ i ∈ [1,2,3,0], i < [1,0,2,3].length) ∧
+    compose (compose [1,2,3,0] [1,0,2,3]) [3,0,1,2] = [3,1,2,0] := by decide
+
+theorem inverse_isPerm (n : Nat) (p : List Nat) (h : IsPermOf n p) : IsPermOf n (inverse p) := by
+  exact Cv.Perm.inverse_isPerm n p h
+example : IsPermOf 4 [2,0,3,1] ∧ inverse [2,0,3,1] = [1,3,0,2] := by decide
+
+theorem inverse_getD (n : Nat) (p : List Nat) (h : IsPermOf n p) (i : Nat) (hi : i < n) :
+    (inverse p).getD (p.getD i 0) 0 = i := by
+  exact Cv.Perm.inverse_getD n p h i hi
+example : IsPermOf 4 [2,0,3,1] ∧ (2 : Nat) < 4 := by decide
+
+theorem compose_inverse_right (n : Nat) (p : List Nat) (h : IsPermOf n p) :
+    compose p (inverse p) = identity n := by
+  exact Cv.Perm.compose_inverse_right n p h
+example : IsPermOf 4 [2,0,3,1] ∧ compose [2,0,3,1] (inverse [2,0,3,1]) = [0,1,2,3] := by decide
+
+theorem compose_inverse_left (n : Nat) (p : List Nat) (h : IsPermOf n p) :
+    compose (inverse p) p = identity n := by
+  exact Cv.Perm.compose_inverse_left n p h
+example : IsPermOf 4 [2,0,3,1] ∧ compose (inverse [2,0,3,1]) [2,0,3,1] = [0,1,2,3] := by decide
+
+theorem inverse_inverse (n : Nat) (p : List Nat) (h : IsPermOf n p) : inverse (inverse p) = p := by
+  exact Cv.Perm.inverse_inverse n p h
+example : IsPermOf 4 [2,0,3,1] ∧ inverse (inverse [2,0,3,1]) = [2,0,3,1] := by decide
+
+theorem apply_identity (x : List Nat) : apply (identity x.length) x = x := by
+  exact Cv.Perm.apply_identity x
+example : apply (identity 3) [5,5,7] = [5,5,7] := by decide
+
+/-- generator p followed by inverse p restores every state (any entries, length n) -/
+theorem apply_inverse_cancel (n : Nat) (p : List Nat) (h : IsPermOf n p) (s : List Nat)
+    (hs : s.length = n) :
+    apply (inverse p) (apply p s) = s ∧ apply p (apply (inverse p) s) = s := by
+  exact Cv.Perm.apply_inverse_cancel n p h s hs
+example : IsPermOf 4 [2,0,3,1] ∧ [7,7,9,100].length = 4 ∧ apply [2,0,3,1] [7,7,9,100] = [9,7,100,7] := by
+  decide
+
+theorem transposition_spec (n i j : Nat) (p : List Nat) (h : transposition n i j = some p) :
+    IsPermOf n p ∧ p.getD i 0 = j ∧ p.getD j 0 = i ∧
+      ∀ k, k < n → k ≠ i → k ≠ j → p.getD k 0 = k := by
+  exact Cv.Perm.transposition_spec n i j p h
+example : transposition 5 1 3 = some [0,3,2,1,4] := by decide
+
+theorem transposition_none_iff {n i j : Nat} :
+    transposition n i j = none ↔ ¬ (i < n ∧ j < n ∧ i ≠ j) := by
+  exact Cv.Perm.transposition_none_iff
+example : transposition 5 1 1 = none ∧ transposition 5 1 5 = none := by decide
+
+
+/-! ### cycles (`permutation_from_cycles`)
+
+The two statements as given in the task are FALSE for the model (and for the Python code): the
+assertion `perm[c] == c` cannot distinguish "not yet written" from "written with `perm[c] = c`", so a
+1-cycle `[a]` (or a repeated adjacent entry) leaves `a` reusable.  We prove the exact versions and
+record the counterexamples. -/
+
+/-- building from DISJOINT in-range cycles yields exactly those cycles (hypothesis `hnd` added) -/
+theorem fromCycles_spec (n : Nat) (cycles : List (List Int)) (offset : Int) (p : List Nat)
+    (h : fromCycles n cycles offset = some p)
+    (hnd : (cycles.flatten.map (· - offset)).Nodup) :
+    IsPermOf n p ∧
+    (∀ c ∈ cycles, ∀ i, i < c.length →
+        p.getD (c.getD i 0 - offset).toNat 0 = (c.getD ((i + 1) % c.length) 0 - offset).toNat) ∧
+    (∀ k, k < n → (∀ c ∈ cycles, (↑k + offset) ∉ c) → p.getD k 0 = k) := by
+  exact Cv.Perm.fromCycles_spec n cycles offset p h hnd
+example : fromCycles 6 [[1, 3, 2], [5, 6]] 1 = some [2, 0, 1, 3, 5, 4] ∧
+    (([[1, 3, 2], [5, 6]] : List (List Int)).flatten.map (· - 1)).Nodup := by decide
+/-- counterexample to the statement without `hnd`: success, but the 1-cycle `[0]` is not a cycle of
+the result -/
+example : fromCycles 2 [[0], [0, 1]] 0 = some [1, 0] ∧
+    ¬ (([1, 0] : List Nat).getD ((([0] : List Int).getD 0 0) - 0).toNat 0 =
+        ((([0] : List Int).getD ((0 + 1) % ([0] : List Int).length) 0) - 0).toNat) := by decide
+
+/-- what holds with NO side condition: result is a permutation, entries in range, every assignment
+that is not a fixed point is visible, positions with only fixed-point assignments are fixed -/
+theorem fromCycles_spec_general (n : Nat) (cycles : List (List Int)) (offset : Int) (p : List Nat)
+    (h : fromCycles n cycles offset = some p) :
+    IsPermOf n p ∧
+    (∀ v ∈ cycles.flatten, 0 ≤ v - offset ∧ v - offset < n) ∧
+    (∀ c ∈ cycles, ∀ i, i < c.length → c.getD i 0 ≠ c.getD ((i + 1) % c.length) 0 →
+        p.getD (c.getD i 0 - offset).toNat 0 = (c.getD ((i + 1) % c.length) 0 - offset).toNat) ∧
+    (∀ k, k < n → (∀ c ∈ cycles, ∀ i, i < c.length → c.getD i 0 = ↑k + offset →
+        c.getD ((i + 1) % c.length) 0 = ↑k + offset) → p.getD k 0 = k) := by
+  exact Cv.Perm.fromCycles_spec_general n cycles offset p h
+example : fromCycles 3 [[0], [0, 1], [2, 2]] 0 = some [1, 0, 2] := by decide
+
+/-- EXACT success condition: entries in range, and a position is assigned again only if all earlier
+assignments to it were fixed points -/
+theorem fromCycles_isSome_iff_exact (n : Nat) (cycles : List (List Int)) (offset : Int) :
+    (fromCycles n cycles offset).isSome = true ↔
+      (∀ v ∈ cycles.flatten, 0 ≤ v - offset ∧ v - offset < n) ∧
+      (allWrites cycles).Pairwise (fun a b => a.1 = b.1 → a.2 = a.1) := by
+  exact Cv.Perm.fromCycles_isSome_iff_exact n cycles offset
+example : allWrites [[0], [0, 1]] = [(0, 0), (0, 1), (1, 0)] ∧
+    (fromCycles 2 [[0], [0, 1]] 0).isSome = true ∧ (fromCycles 2 [[0, 1], [0]] 0).isSome = false := by
+  decide
+
+/-- the stated equivalence, valid when no assignment is a fixed point (no 1-cycles, no cyclically
+adjacent repeated entries) -/
+theorem fromCycles_some_iff (n : Nat) (cycles : List (List Int)) (offset : Int)
+    (hnf : NoFixedWrites cycles) :
+    (fromCycles n cycles offset).isSome = true ↔
+      ((cycles.flatten.map (· - offset)).Nodup ∧
+        ∀ v ∈ cycles.flatten, 0 ≤ v - offset ∧ v - offset < n) := by
+  exact Cv.Perm.fromCycles_some_iff n cycles offset hnf
+example : NoFixedWrites [[1, 3, 2], [5, 6]] ∧ (fromCycles 6 [[1, 3, 2], [5, 6]] 1).isSome = true ∧
+    ¬ NoFixedWrites [[0], [0, 1]] := by decide
+/-- the direction that holds unconditionally: disjoint in-range cycles are accepted -/
+theorem fromCycles_isSome_of_nodup (n : Nat) (cycles : List (List Int)) (offset : Int)
+    (hnd : (cycles.flatten.map (· - offset)).Nodup)
+    (hr : ∀ v ∈ cycles.flatten, 0 ≤ v - offset ∧ v - offset < n) :
+    (fromCycles n cycles offset).isSome = true := by
+  exact Cv.Perm.fromCycles_isSome_of_nodup n cycles offset hnd hr
+example : (([[1, 3, 2], [5, 6]] : List (List Int)).flatten.map (· - 1)).Nodup ∧
+    ∀ v ∈ ([[1, 3, 2], [5, 6]] : List (List Int)).flatten, 0 ≤ v - 1 ∧ v - 1 < (6 : Nat) := by decide
+/-- counterexamples to the stated equivalence without `hnf` -/
+example : (fromCycles 2 [[0], [0, 1]] 0).isSome = true ∧
+    ¬ (([[0], [0, 1]] : List (List Int)).flatten.map (· - 0)).Nodup := by decide
+example : fromCycles 2 [[0, 0, 1]] 0 = some [1, 0] ∧
+    ¬ (([[0, 0, 1]] : List (List Int)).flatten.map (· - 0)).Nodup := by decide
+
+
+/-! ### `partition_to_permutation` -/
+
+/-- first conjunct of `partitionToPermutation_type`: the result is a permutation of `lens.sum`
+(for any arrangement `els` of `0..n-1`; positivity of the lengths is not needed for this part) -/
+theorem partitionToPermutation_isPerm (lens els : List Nat)
+    (hels : els.Perm (List.range lens.sum)) :
+    IsPermOf lens.sum (partitionToPermutation lens els) := by
+  exact Cv.Perm.partitionToPermutation_isPerm lens els hels
+example : ([3, 0, 4, 1, 2] : List Nat).Perm (List.range [2, 3].sum) ∧
+    partitionToPermutation [2, 3] [3, 0, 4, 1, 2] = [3, 2, 4, 0, 1] := by decide
+
+/-- full statement (second conjunct was STRETCH): the result has cycle type `lens` -/
+theorem partitionToPermutation_type (lens : List Nat) (hpos : ∀ k ∈ lens, 1 ≤ k) (els : List Nat)
+    (hels : els.Perm (List.range lens.sum)) :
+    IsPermOf lens.sum (partitionToPermutation lens els) ∧
+    cycleType (partitionToPermutation lens els) = lens.mergeSort (fun a b => decide (a ≤ b)) := by
+  exact Cv.Perm.partitionToPermutation_type lens hpos els hels
+example : (∀ k ∈ [2, 3], 1 ≤ k) ∧ ([3, 0, 4, 1, 2] : List Nat).Perm (List.range [2, 3].sum) ∧
+    partitionToPermutation [2, 3] [3, 0, 4, 1, 2] = [3, 2, 4, 0, 1] := by decide
+
+/-! ### conjugacy class enumeration (`permutations_with_cycle_lenghts`) -/
+
+/-- STRETCH theorem, proved: every enumerated element is a permutation of `n` with cycle type `lens` -/
+theorem conj_sound (n : Nat) (lens : List Nat) (ps : List (List Nat))
+    (h : permutationsWithCycleLengths n lens = some ps) :
+    ∀ p ∈ ps, IsPermOf n p ∧ cycleType p = lens.mergeSort (fun a b => decide (a ≤ b)) := by
+  exact Cv.Perm.conj_sound n lens ps h
+example : permutationsWithCycleLengths 3 [3] = some [[1, 2, 0], [2, 0, 1]] := by
+  rw [permutationsWithCycleLengths_eq]; decide +kernel
+
+/-- STRETCH theorem, proved: the enumeration has no repetitions -/
+theorem conj_nodup (n : Nat) (lens : List Nat) (ps : List (List Nat))
+    (h : permutationsWithCycleLengths n lens = some ps) : ps.Nodup := by
+  exact Cv.Perm.conj_nodup n lens ps h
+example : permutationsWithCycleLengths 4 [2, 1, 1] =
+    some [[0, 1, 3, 2], [0, 2, 1, 3], [0, 3, 2, 1], [1, 0, 2, 3], [2, 1, 0, 3], [3, 1, 2, 0]] := by
+  rw [permutationsWithCycleLengths_eq]; decide +kernel
+
+/-- STRETCH (hard) theorem, proved: every permutation of `n` with cycle type `lens` is enumerated -/
+theorem conj_complete (n : Nat) (lens : List Nat) (ps : List (List Nat))
+    (h : permutationsWithCycleLengths n lens = some ps) :
+    ∀ p, IsPermOf n p → cycleType p = lens.mergeSort (fun a b => decide (a ≤ b)) → p ∈ ps := by
+  exact Cv.Perm.conj_complete n lens ps h
+example : ∃ ps, permutationsWithCycleLengths 5 [3, 2] = some ps ∧ IsPermOf 5 [3, 2, 4, 0, 1] ∧
+    cycleType [3, 2, 4, 0, 1] = [3, 2].mergeSort (fun a b => decide (a ≤ b)) := by
+  obtain ⟨ps, h, _⟩ := Cv.Perm.checkClass_sound 5 [3, 2] 20 (by decide +kernel)
+  exact ⟨ps, h, by decide, by rw [cycleType_eq_isort, mergeSort_eq_isort]; decide +kernel⟩
+
+/-! ### checked computations (not ∀-theorems)
+
+Requested as a fallback for the stretch theorems `conj_sound`, `conj_nodup`, `conj_complete`; all three
+are now proved above for every `n`, so this section is only an independent cross-check (it also pins the
+class sizes, which the ∀-theorems do not state).  For every partition of every `n ≤ 6` the enumeration `permutationsWithCycleLengths n lens` is evaluated by the kernel
+(`decide +kernel`) and checked to (a) have exactly `n!/∏ k^{m_k} m_k!` elements, (b) be duplicate free,
+(c) consist of permutations of `n` whose `cycleType` is the sorted `lens`.  Together (a)–(c) imply
+completeness for these instances by counting.  `checkClass_sound` (a ∀-theorem) states what a successful
+check means for the model functions. -/
+
+theorem checkClass_sound (n : Nat) (lens : List Nat) (count : Nat) (h : checkClass n lens count = true) :
+    ∃ ps, permutationsWithCycleLengths n lens = some ps ∧ ps.length = count ∧ ps.Nodup ∧
+      ∀ p ∈ ps, IsPermOf n p ∧ cycleType p = lens.mergeSort (fun a b => decide (a ≤ b)) := by
+  exact Cv.Perm.checkClass_sound n lens count h
+
+-- n = 1
+example : checkClass 1 [1] 1 = true := by decide +kernel
+-- n = 2
+example : checkClass 2 [1, 1] 1 = true := by decide +kernel
+example : checkClass 2 [2] 1 = true := by decide +kernel
+-- n = 3
+example : checkClass 3 [1, 1, 1] 1 = true := by decide +kernel
+example : checkClass 3 [1, 2] 3 = true := by decide +kernel
+example : checkClass 3 [3] 2 = true := by decide +kernel
+-- n = 4
+example : checkClass 4 [1, 1, 1, 1] 1 = true := by decide +kernel
+example : checkClass 4 [1, 1, 2] 6 = true := by decide +kernel
+example : checkClass 4 [2, 2] 3 = true := by decide +kernel
+example : checkClass 4 [1, 3] 8 = true := by decide +kernel
+example : checkClass 4 [4] 6 = true := by decide +kernel
+-- n = 5
+example : checkClass 5 [1, 1, 1, 1, 1] 1 = true := by decide +kernel
+example : checkClass 5 [1, 1, 1, 2] 10 = true := by decide +kernel
+example : checkClass 5 [1, 2, 2] 15 = true := by decide +kernel
+example : checkClass 5 [1, 1, 3] 20 = true := by decide +kernel
+example : checkClass 5 [2, 3] 20 = true := by decide +kernel
+example : checkClass 5 [1, 4] 30 = true := by decide +kernel
+example : checkClass 5 [5] 24 = true := by decide +kernel
+-- n = 6
+example : checkClass 6 [1, 1, 1, 1, 1, 1] 1 = true := by decide +kernel
+example : checkClass 6 [1, 1, 1, 1, 2] 15 = true := by decide +kernel
+example : checkClass 6 [1, 1, 2, 2] 45 = true := by decide +kernel
+example : checkClass 6 [2, 2, 2] 15 = true := by decide +kernel
+example : checkClass 6 [1, 1, 1, 3] 40 = true := by decide +kernel
+example : checkClass 6 [1, 2, 3] 120 = true := by decide +kernel
+example : checkClass 6 [3, 3] 40 = true := by decide +kernel
+example : checkClass 6 [1, 1, 4] 90 = true := by decide +kernel
+example : checkClass 6 [2, 4] 90 = true := by decide +kernel
+example : checkClass 6 [1, 5] 144 = true := by decide +kernel
+example : checkClass 6 [6] 120 = true := by decide +kernel
+-- unsorted inputs
+example : checkClass 5 [3, 2] 20 = true := by decide +kernel
+example : checkClass 6 [2, 1, 3] 120 = true := by decide +kernel
+example : checkClass 4 [2, 1, 1] 6 = true := by decide +kernel
+
+/-- the form suggested in the task -/
+example : (permutationsWithCycleLengths 5 [2, 3]).map (·.length) = some 20 := by
+  obtain ⟨ps, h, hl, _⟩ := checkClass_sound 5 [2, 3] 20 (by decide +kernel)
+  rw [h]; simp [hl]
+
+/-- the docstring examples of `permutations_with_cycle_lenghts`, output order included -/
+example : permutationsWithCycleLengths 3 [3] = some [[1, 2, 0], [2, 0, 1]] := by
+  rw [permutationsWithCycleLengths_eq]; decide +kernel
+example : permutationsWithCycleLengths 4 [2, 1, 1] =
+    some [[0, 1, 3, 2], [0, 2, 1, 3], [0, 3, 2, 1], [1, 0, 2, 3], [2, 1, 0, 3], [3, 1, 2, 0]] := by
+  rw [permutationsWithCycleLengths_eq]; decide +kernel
+/-- the asserted / raising inputs -/
+example : permutationsWithCycleLengths 0 [] = none ∧ permutationsWithCycleLengths 3 [0, 3] = none ∧
+    permutationsWithCycleLengths 3 [2, 2] = none := by
+  simp only [permutationsWithCycleLengths_eq]; decide +kernel
+
+end Cv.C20
